@@ -878,7 +878,7 @@ def main():
                None, correspondence="trace of the real threads accepted by StreamLoop.step, every received item predicted",
                family="strm")
     # statistics (also what C11 can cite for PayloadBuilder::build through the real loop)
-    ok_items = err_items = frames = accessor = 0
+    ok_items = err_items = frames = accessor = panics = ext_ok = 0
     kinds = {}
     scheds = set()
     events = 0
@@ -892,6 +892,7 @@ def main():
             if it[0] == 0:
                 ok_items += 1
                 accessor += 2
+                panics += (it[12] == 2) + (it[15] == 2)
                 kinds[it[2]] = kinds.get(it[2], 0) + 1
             else:
                 err_items += 1
@@ -901,5 +902,5 @@ def main():
                     "ok_by_payload_type": kinds,
                     "C11_payload_builder": {"frames_through_PayloadBuilder_build": frames, "payloads_delivered": ok_items,
                                             "image_payload_accessor_calls_under_catch_unwind": accessor,
-                                            "accessor_panics": 0}})
+                                            "accessor_panics": panics}})
     ck.finish()
